@@ -201,9 +201,9 @@ class RegisterCanonicalPool(_Meta):
 
     @property
     def models(self):
-        return (self.install,)
+        return (self.install_models,)
 
-    def install(self, reg):
+    def install_models(self, reg):
         orig = None
         def joined(I, o, a, k):
             return None
